@@ -24,6 +24,11 @@ def label_tok(rng, kind):
     return rng.randint(-3, 9)
 
 
+def ftok(rng, f):
+    """force flag token: the flag, or `d` (argument left out: the overload / default argument) when it is 0"""
+    return "d" if (not f and rng.random() < 0.3) else f
+
+
 def pick_pair(rng, n, loops=0.2):
     """a vertex pair in range; self-loops over-sampled"""
     if rng.random() < loops:
@@ -61,7 +66,7 @@ def op_simple(rng, cls, kind, n, present, force_p=0.0, setlabel=True, dedup=Fals
             i, j = pick_pair(rng, n)
         f = 1 if rng.random() < force_p else 0
         present.add((i, j))
-        return f"{verb} 0 {i} {j} {label_tok(rng, kind)} {f}"
+        return f"{verb} 0 {i} {j} {label_tok(rng, kind)} {ftok(rng, f)}"
     if verb == "removeEdge":
         if present and rng.random() < 0.7:
             i, j = rng.choice(sorted(present))
@@ -112,13 +117,13 @@ def op_multi(rng, cls, n, present, force_p=0.0, dedup=False):
         return pick_pair(rng, n)
     f = 1 if rng.random() < force_p else 0
     if verb == "addEdge":
-        i, j = pair(0.3); present.add((i, j)); return f"addEdge 0 {i} {j} {f}"
+        i, j = pair(0.3); present.add((i, j)); return f"addEdge 0 {i} {j} {ftok(rng, f)}"
     if verb == "addMultiedge":
-        i, j = pair(0.3); present.add((i, j)); return f"addMultiedge 0 {i} {j} {rng.choice([0, 1, 1, 2, 3, 5])} {f}"
+        i, j = pair(0.3); present.add((i, j)); return f"addMultiedge 0 {i} {j} {rng.choice([0, 1, 1, 2, 3, 5])} {ftok(rng, f)}"
     if verb == "addReciprocalEdge":
-        i, j = pair(0.3); present.add((i, j)); return f"addReciprocalEdge 0 {i} {j} {f}"
+        i, j = pair(0.3); present.add((i, j)); return f"addReciprocalEdge 0 {i} {j} {ftok(rng, f)}"
     if verb == "addReciprocalMultiedge":
-        i, j = pair(0.3); present.add((i, j)); return f"addReciprocalMultiedge 0 {i} {j} {rng.choice([0, 1, 2, 3])} {f}"
+        i, j = pair(0.3); present.add((i, j)); return f"addReciprocalMultiedge 0 {i} {j} {rng.choice([0, 1, 2, 3])} {ftok(rng, f)}"
     if verb == "removeEdge":
         i, j = pair(); return f"removeEdge 0 {i} {j}"
     if verb == "removeMultiedge":
@@ -150,7 +155,7 @@ def op_weighted(rng, cls, n, present, force_p=0.0, dedup=False, wlo=-8, whi=16):
         return pick_pair(rng, n)
     f = 1 if rng.random() < force_p else 0
     if verb == "addEdge":
-        i, j = pair(0.3); present.add((i, j)); return f"addEdge 0 {i} {j} {rng.randint(wlo, whi)} {f}"
+        i, j = pair(0.3); present.add((i, j)); return f"addEdge 0 {i} {j} {rng.randint(wlo, whi)} {ftok(rng, f)}"
     if verb == "addReciprocalEdge":
         i, j = pair(0.3); present.add((i, j)); return f"addReciprocalEdge 0 {i} {j} {rng.randint(0, 1)}"
     if verb == "setEdgeWeight":
